@@ -493,6 +493,68 @@ theorem revokeSentinel_never_twice (P : Params) (s s' s'' : Sentinel) (c c2 : Ct
   cases he2
   exact ⟨hr2, by rw [hp2, hsame]⟩
 
+/-! ## liquidity (stake entries only) -/
+
+/-- T1 (liquidity stakes, one receive): per token, Σ stake entries ≤ balance — as long as only LiquidityStake and
+    CancelLiquidityStake move the balance (see `liquidity_burn_breaks_backing` for what the model leaves out) -/
+theorem liquidity_backed_step (P : Params) (op : LiquidityOp) (s : Liquidity) (bal : Bal) (c : Ctx)
+    (h : Backed liquidityOwed s bal) :
+    Backed liquidityOwed (vmStep (op.method P) s bal c).st (vmStep (op.method P) s bal c).bal :=
+  vmStep_backed (liquidity_methodBacked P op) c h
+
+/-- T1 (liquidity stakes, all histories of LiquidityStake / CancelLiquidityStake) -/
+theorem liquidity_backed_partial (P : Params) (ops : List (LiquidityOp × Ctx)) (s : Liquidity) (bal : Bal)
+    (h : Backed liquidityOwed s bal) :
+    Backed liquidityOwed (run (LiquidityOp.method P) (s, bal) ops).1 (run (LiquidityOp.method P) (s, bal) ops).2 :=
+  run_backed (liquidity_methodBacked P) ops (s, bal) h
+
+/-- N1 (negative witness, finding F14): the liquidity contract keeps staked principal and reward funds in one balance.
+    With ZNN configured as a stakeable token, a BurnZnn by the spork address (Fund behaves alike) removes staked ZNN:
+    the contract then owes more than it holds and the matured cancel of the staker is refused for lack of funds. -/
+theorem liquidity_burn_breaks_backing :
+    let P : Params := { Params.production with stakeTimeUnit := 100, stakeTimeMin := 100, stakeTimeMax := 1200 }
+    let s0 : Liquidity := { tuples := [(znnTok, 1)] }
+    let r1 := vmStep (liquidityStake P 100) s0 [] ⟨1000, 1, 16, 5, znnTok, 7⟩
+    let r2 := vmStep (liquidityBurnZnn 5 true) r1.st r1.bal ⟨1010, 2, 20, 0, zeroTok, 8⟩
+    let r3 := vmStep (cancelLiquidityStake 7) r2.st r2.bal ⟨1100, 3, 16, 0, zeroTok, 9⟩
+    r1.status = 1 ∧ r2.status = 1 ∧ liquidityOwed r2.st znnTok = 5 ∧ r2.bal.get znnTok = 0 ∧ r3.status = 2 := by
+  decide
+
+/-- T3 (liquidity stake): CancelLiquidityStake pays out only to the caller under whose address the entry is recorded,
+    only when the expiration time has passed, exactly the recorded amount of the recorded token; the entry is left
+    with amount 0. -/
+theorem cancelLiquidityStake_release_rule (id : Hash) (s s' : Liquidity) (c : Ctx) (ps : List Payout)
+    (h : cancelLiquidityStake id s c = some (s', ps)) :
+    ∃ e, lookup (c.sender, id) s.entries = some e ∧ c.amount = 0 ∧ e.expiration ≤ c.now ∧
+      ps = [⟨c.sender, e.tok, e.amount, false⟩] ∧
+      lookup (c.sender, id) s'.entries = some { e with revoke := c.now, amount := 0 } := by
+  unfold cancelLiquidityStake at h
+  split at h
+  · cases h
+  · rename_i ha
+    split at h
+    · cases h
+    · rename_i e he
+      split at h
+      · cases h
+      · rename_i hx
+        simp only [Option.some.injEq, Prod.mk.injEq] at h
+        obtain ⟨hs, hp⟩ := h
+        refine ⟨e, he, by simpa using ha, by omega, hp.symm, ?_⟩
+        subst hs
+        exact lookup_put_self _ _ _
+
+/-- T4 (liquidity stake): a repeated cancel of a cancelled entry pays exactly 0 -/
+theorem cancelLiquidityStake_never_twice (id : Hash) (s s' s'' : Liquidity) (c c2 : Ctx) (ps ps2 : List Payout)
+    (h : cancelLiquidityStake id s c = some (s', ps)) (hsame : c2.sender = c.sender)
+    (h2 : cancelLiquidityStake id s' c2 = some (s'', ps2)) :
+    ∃ tok, ps2 = [⟨c.sender, tok, 0, false⟩] := by
+  obtain ⟨e, _, _, _, _, hrec⟩ := cancelLiquidityStake_release_rule id s s' c ps h
+  obtain ⟨e2, he2, _, _, hp2, _⟩ := cancelLiquidityStake_release_rule id s' s'' c2 ps2 h2
+  rw [hsame, hrec] at he2
+  cases he2
+  exact ⟨e.tok, by rw [hp2, hsame]⟩
+
 /-! ## the hypotheses are satisfiable -/
 
 /-- a backed plasma state in which U(=16) owns a matured fusion: the cancel pays, a second cancel fails -/
